@@ -264,7 +264,7 @@ func (g *docGen) line(budget *int) {
 		if g.risky == "token-after-close-brace-on-same-line" && g.rng.Chance(1, 2) {
 			g.sb.WriteString(g.ws() + g.token())
 		}
-		if !g.wonly && g.rng.Chance(1, 12) {
+		if g.rng.Chance(1, 12) { // (also in W documents: a comment after `}` on the same line is inside W)
 			g.sb.WriteString(g.ws() + g.comment())
 		}
 		g.nl()
